@@ -33,11 +33,11 @@ import c15_defs  # noqa: E402
 
 PROP = "C15"
 DRIVER = "drv-c15"
-PROOF_MODULES = ["TetlProofs.C15.Props", "TetlProofs.C15.PropsGen"]
+PROOF_MODULES = ["TetlProofs.C15.Props", "TetlProofs.C15.PropsGen", "TetlProofs.C15.PropsInvoke"]
 HARNESS = "harness/c15.cpp"
 SOURCES = ["include/etl/_type_traits", "include/etl/_concepts", "include/etl/_limits/numeric_limits.hpp",
            "include/etl/_ratio", "include/etl/_meta", "include/etl/_numeric/gcd.hpp", "include/etl/_math/abs.hpp",
-           "include/etl/_math/sign.hpp"]
+           "include/etl/_math/sign.hpp", "include/etl/_functional/invoke.hpp", "include/etl/_functional/reference_wrapper.hpp"]
 CXXSTD = ["-std=c++2b", "-O0", "-w"]
 
 RULE = ("(c) every type of the Lean-enumerated zoo of depth 0 (31 base types x 4 cv; eight enumerations with underlying types of 1, 2, 4 and 8 bytes) and a seeded sample (thorough: all) of "
@@ -47,7 +47,19 @@ RULE = ("(c) every type of the Lean-enumerated zoo of depth 0 (31 base types x 4
         "sample of etl::make_(un)signed<T>::type is compiled alone and must be rejected; (d) 60 intrinsic-backed "
         "traits/concepts (the traits in both forms) over a 50-class zoo, its cv/ref/"
         "pointer/array variants and a zoo sample, 22 relational traits/concepts + common_type of 1, 2 and 3 types/common_reference/invoke_result "
-        "over all ordered pairs of a relation list; the definitions of all traits are re-extracted from the preprocessed headers "
+        "over all ordered pairs of a relation list; (e) INVOKE: is_invocable, is_invocable_r<R> (R = void, int, int&, int&&, int const&), "
+        "invoke_result (each in both forms) and the concepts invocable, regular_invocable, predicate for every pointer to a member "
+        "function of a class S (no / & / && ref-qualifier x none / const / const volatile, noexcept, arity 0 and 1; 12 of them) and to a "
+        "data member (int, int const) x 15 first arguments (S, derived D, reference_wrapper<S / S const / D> of etl resp. std, S*, "
+        "S const*, D*, five pointer-like classes whose operator* is unqualified / const / & / && / returns S const&, an unrelated "
+        "class, int) x the six forms T, T&, T&&, T const, T const&, T const&& - all 1260 combinations on every run, plus a seeded "
+        "sample (thorough: all) of the member pointer itself in the forms F&, F const&, ..., of wrong arities and of a missing "
+        "object argument; 11 function objects (const / & / && / const& / const&& / const volatile& / overloaded / noexcept / void "
+        "call operators), 4 functions (type, pointer, reference, noexcept pointer) and 2 non-callables x the six forms x 0, 1, 2 "
+        "int arguments and a sample with an object argument; one fixed row of plain etl-vs-std items for aligned_storage, "
+        "aligned_union, conditional, enable_if, void_t, unwrap_reference, unwrap_ref_decay, predicate, relation, "
+        "equivalence_relation, strict_weak_order, boolean_testable, the <cstdint>/<cstddef> typedefs, the SI ratios and an "
+        "incomplete class type; the definitions of all traits are re-extracted from the preprocessed headers "
         "(g++ and clang++ branches) and the table theorems re-checked; a seeded sample of 240 (thorough: 1200) trait and limits rows is "
         "compiled a second time with clang++, which takes the other #if branch of eight traits; (b) all 32 numeric_limits members x 19 arithmetic types x 4 cv; "
         "(a) ratio<n,d> over a small grid and near-overflow values, the four arithmetic aliases and six comparisons over "
@@ -56,7 +68,7 @@ RULE = ("(c) every type of the Lean-enumerated zoo of depth 0 (31 base types x 4
         "opposite sign with a fractional carry, completely cancelling products, Fibonacci neighbours for the comparison loop, "
         "lcm(d1,d2) not representable while the sum is); where model and spec say ill-formed a seeded sample of the "
         "instantiations (and ratio<n,0>, ratio<INTMAX_MIN,d>) is compiled alone and must be rejected.  A case is non-trivial when the type is "
-        "compound / the pair differs / the ratio is not already reduced or an intermediate exceeds 2^31; distinct = distinct "
+        "compound / the pair differs / the callable is a member pointer or not in the plain form F / the ratio is not already reduced or an intermediate exceeds 2^31; distinct = distinct "
         "case text.")
 ASSUMPTIONS = ["libstdc++ 12 <type_traits>, <concepts>, <limits>, <ratio> are the reference (R2 validates the Lean spec against them)",
                "x86-64 Linux data model (LP64; char and wchar_t signed) for sizes, signedness and underlying types",
@@ -66,7 +78,12 @@ ASSUMPTIONS = ["libstdc++ 12 <type_traits>, <concepts>, <limits>, <ratio> are th
 TRUSTED = ["hand model Tetl/C15/Model.lean tied to the source by the compile-time correspondence matrix (R1) on every run",
            "spec Tetl/C15/Spec.lean validated against libstdc++ (R2) on every run",
            "type encoder `Enc` of harness/c15.cpp (partial specialisations independent of etl and std)",
-           "extractors gen/c15_defs.py (trait definitions) and gen/c15_limits.py (numeric_limits members) over the headers as "
+           "the named INVOKE zoo: `namespace inv` of harness/c15.cpp and its transcription Inv.callableOf / Inv.abaseOf "
+           "(Tetl/C15/Invoke.lean); a mismatch shows as spec != std (R2) on every run",
+           "the language rules Inv.Lang (value category of declval, which implicit object arguments a cv-/ref-qualified member "
+           "function accepts, overload resolution among call operators, convertibility of the zoo's result types), shared by "
+           "model and spec and validated against g++/libstdc++ by R2 on every row",
+           "extractors gen/c15_defs.py (trait definitions), gen/c15_invoke.py (INVOKE overload set) and gen/c15_limits.py (numeric_limits members) over the headers as "
            "preprocessed by the compiler under test: tokeniser + recursive descent; what they do not understand becomes an "
            "`opaque` node, which no theorem accepts"]
 
@@ -75,9 +92,13 @@ CLAIMED = True
 TECHNIQUE = ("Three parts are Lean 4 proofs about a hand model that is tied to the source by a compile-time matrix on every "
              "run: (a) <ratio>, (b) numeric_limits of the integer types - here additionally the members AS THE HEADER SPELLS "
              "THEM are extracted from the preprocessed header on every run and evaluated by a small C-expression semantics -, "
-             "(c) the structural traits/concepts over a C++ type grammar (incl. make_signed/make_unsigned/underlying_type).  "
-             "Part (d) - about 80 intrinsic-backed class traits, relational traits and concepts, common_type/common_reference/"
-             "invoke_result - is tied + observed: the DEFINITION of every trait (which builtin with which arguments, the formula "
+             "(c) the structural traits/concepts over a C++ type grammar (incl. make_signed/make_unsigned/underlying_type), "
+             "(e) INVOKE (is_invocable, is_invocable_r, invoke_result, invocable, regular_invocable, predicate): a Lean model of "
+             "tetl's overload set detail::invoke_impl by types, [func.require]/1.1-1.7 by expressions as the spec, model = spec "
+             "for the whole grammar; the overload set is re-extracted from the preprocessed header on every run (gen/c15_invoke.py) "
+             "and proved to be the transcribed one.  "
+             "Part (d) - about 80 intrinsic-backed class traits, relational traits and concepts, common_type/common_reference "
+             "- is tied + observed: the DEFINITION of every trait (which builtin with which arguments, the formula "
              "of a composite trait, the argument pattern of the copy/move families, agreement of the _v and the class-template "
              "form) is extracted from the preprocessed headers on every run and proved to be the prescribed one by decide over "
              "the generated table; the ANSWER of the compiler builtins is a differential etl-vs-libstdc++ matrix only, as are the "
@@ -106,7 +127,21 @@ LEVEL_TEXT = ("PROVED in Lean 4 for all inputs (coverage.theorems): (c) each of 
               "that number fit intmax_t - no intermediate of the gcd-first products, of detail::ratio_add_impl or of "
               "detail::ratio_less_impl overflows - and ill-formed otherwise (or when the divisor is zero); ratio_equal/"
               "not_equal/less/less_equal/greater/greater_equal are =, !=, <, <=, >, >= of Q for all operands (the "
-              "continued-fraction loop terminates within den+1 iterations).  (d) TIED, by decide over the table of definitions "
+              "continued-fraction loop terminates within den+1 iterations).  (e) INVOKE: for every callable of a grammar (function type/pointer/reference, function object "
+              "with any list of cv-/ref-qualified call operators, pointer to a member function of S with any cv-qualifier-seq, "
+              "ref-qualifier, noexcept and arity, pointer to a data member, non-callable), in each of the six forms F, F&, F&&, "
+              "F const, F const&, F const&&, every first argument (S, a derived class, reference_wrapper of either, pointer to "
+              "either, a pointer-like class whose operator* has any qualifiers, an unrelated type; six forms each) and any number "
+              "of trailing int arguments, tetl's overload set (forwarding-reference deduction, etl::forward, the three constrained "
+              "get overloads T&& / t.get() / *forward<T>(t), the two member call overloads, detail::is_invocable_impl) yields "
+              "exactly the INVOKE expression of [func.require]/1.1-1.7: well-formed together, same result type and value category "
+              "(invoke_eq, invoke_object_expression_eq), hence is_invocable, is_invocable_r<R>, invoke_result, invocable, "
+              "regular_invocable and predicate agree; the ref-qualifier rule is a theorem about the spec (an && member function "
+              "needs an rvalue object expression, an & one an lvalue unless its cv-qualifier-seq is exactly const - "
+              "[expr.mptr.oper]/6 of C++20 -, an unqualified one takes both, a const object needs a const function); the overload "
+              "set extracted from the header IS the transcribed one (invoke_overloads_as_modelled), in particular the object "
+              "argument is etl::forward<T>(t) and not the named parameter, for which the theorem is shown to fail "
+              "(invoke_named_parameter_differs).  (d) TIED, by decide over the table of definitions "
               "extracted from the preprocessed headers on every run: each of 19 intrinsic-backed traits (is_trivial, "
               "is_trivially_copyable, is_standard_layout, is_empty, is_polymorphic, is_abstract, is_final, is_aggregate, "
               "has_virtual_destructor, has_unique_object_representations, is_(trivially_|nothrow_)constructible, "
@@ -121,6 +156,7 @@ LEVEL_TEXT = ("PROVED in Lean 4 for all inputs (coverage.theorems): (c) each of 
               "and targeted families; "
               "instantiations that model and spec call ill-formed (ratio, make_signed/make_unsigned) are compiled alone on a "
               "sample and must be rejected.  "
+              "The INVOKE rows (e) compare etl with std, model and spec for all 1260 member-pointer combinations on every run.  "
               "NOT PROVED, differential matrix against libstdc++ only (coverage.unproved_observed): the VALUE of the about 80 "
               "intrinsic-backed class traits and relational traits/concepts over a class zoo (what the compiler builtins and "
               "the SFINAE probes answer), floating-point numeric_limits, conjunction/disjunction/negation.")
@@ -129,11 +165,18 @@ LEVEL_NOTE = ("Trusted: Lean kernel + propext/Classical.choice/Quot.sound; fidel
               "oracle.  Part (d) (coverage.unproved_observed): the theorems pin the definitions (which builtin, which "
               "arguments, which formula), not the answers - those are differential testing, not proof; traits defined by "
               "SFINAE probes or partial specialisations the extractor does not read (is_convertible, is_base_of, "
-              "is_destructible, is_nothrow_*, is_swappable_with, invoke_result, common_type, the concepts with "
+              "is_destructible, is_nothrow_*, is_swappable_with, common_type, the concepts with "
               "requires-expressions) are observed only.  The clang++ #if branches are tied for every trait and executed on a seeded sample of rows only.  "
               "Floating-point numeric_limits members are compared with std only; of the integer members is_specialized, "
               "is_integer, is_exact, radix, is_bounded and the zero-valued floating-point members are compared only.  "
-              "numeric_limits<bool>::traps differs from libstdc++ (known finding, implementation-defined member).")
+              "numeric_limits<bool>::traps differs from libstdc++ (known finding, implementation-defined member).  INVOKE (e): the "
+              "language rules Inv.Lang (what a qualified member function accepts, overload resolution, convertibility) are "
+              "shared by model and spec - the theorems are about tetl's case analysis and forwarding, the rules themselves are "
+              "validated against g++ by R2 only; volatile objects, abominable function types, arguments other than int and "
+              "is_invocable_r<R> for R outside {void, int, int&, int&&, int const&} are outside the grammar.  tetl has no "
+              "is_nothrow_invocable / is_nothrow_invocable_r (nothing to compare: the property is about the traits etl has); "
+              "aligned_storage<Len> with the default alignment is implementation-defined (libstdc++: the maximum, etl: like "
+              "libc++/MSVC) and int_least/int_fast are implementation-defined choices: only what the standard requires is compared.")
 CORRESPONDENCE_ONLY = ["add_cv",
                        "the 14 traits defined by partial specialisation (is_const, is_volatile, is_reference, is_lvalue_reference, "
                        "is_rvalue_reference, is_array, is_bounded_array, is_unbounded_array, is_pointer, is_member_pointer, "
@@ -153,13 +196,18 @@ UNPROVED_OBSERVED = [
     "DEFINITION NOT EXTRACTED (SFINAE probes, noexcept / requires-expressions, partial specialisations), compared with std only: "
     "alignment_of", "is_nothrow_(copy_|move_)?assignable", "is_(nothrow_)?destructible", "is_(nothrow_)?swappable(_with)?",
     "is_(nothrow_)?convertible", "is_base_of",
-    "is_invocable", "invoke_result", "common_type (1, 2 and 3 arguments)", "common_reference",
+    "common_type (1, 2 and 3 arguments)", "common_reference",
+    "is_invocable / invoke_result / invocable for the class zoo of part (d) (Callable, CallableRef, ... as T1 with T2 as the only "
+    "argument: outside the INVOKE grammar of part (e), compared with std only)",
     "concepts: destructible, default_initializable, move_constructible, copy_constructible, movable, copyable, semiregular, "
     "regular, equality_comparable, swappable, convertible_to, derived_from, assignable_from, constructible_from, common_with, "
-    "common_reference_with, invocable",
-    "never instantiated by the matrix: aligned_storage, aligned_union, conditional, enable_if, void_t, is_invocable_r, "
-    "unwrap_reference, unwrap_ref_decay, the concepts predicate, relation, equivalence_relation, strict_weak_order, "
-    "regular_invocable, boolean_testable, the typedefs of _cstdint/_cstddef, incomplete class types"]
+    "common_reference_with",
+    "fixed row, etl vs std only: aligned_storage (explicit alignment), aligned_union, conditional, enable_if, void_t, unwrap_reference, "
+    "unwrap_ref_decay, relation, equivalence_relation, strict_weak_order, boolean_testable (against libstdc++'s exposition-only "
+    "__boolean_testable), int8_t ... uintptr_t, size_t, ptrdiff_t, nullptr_t, byte, max_align_t, the SI ratios atto ... exa, "
+    "17 traits of an incomplete class type",
+    "never instantiated by the matrix: the _meta type lists (no std facility of the same name); absent from tetl: "
+    "is_nothrow_invocable(_r)"]
 THEOREMS = {
     "rn": ["Tetl.C15.Props.mkRatio_rat", "Tetl.C15.Props.mkRatio_eq", "Tetl.C15.Props.mkRatio_illformed",
            "Tetl.C15.Props.mkRatio_valid", "Tetl.C15.Props.valid_num_den", "Tetl.C15.Props.reduce_lowest_terms",
@@ -187,6 +235,11 @@ THEOREMS = {
            "Tetl.C15.Props.composite_formulas", "Tetl.C15.Props.forwarding_vars", "Tetl.C15.Props.helper_traits_strip_cv",
            "Tetl.C15.Props.var_and_struct_forms_agree"],
     "bt": ["Tetl.C15.Props.isSame_iff", "Tetl.C15.Props.sameAs_eq"],
+    "inv": ["Tetl.C15.Props.invoke_eq", "Tetl.C15.Props.invoke_object_expression_eq", "Tetl.C15.Props.forward_preserves_category",
+            "Tetl.C15.Props.invokeResult_eq", "Tetl.C15.Props.isInvocable_eq", "Tetl.C15.Props.isInvocableR_eq",
+            "Tetl.C15.Props.invocable_eq", "Tetl.C15.Props.predicate_eq", "Tetl.C15.Props.invoke_ref_qualifier_rule",
+            "Tetl.C15.Props.invoke_named_parameter_differs", "Tetl.C15.Props.invoke_overloads_as_modelled",
+            "Tetl.C15.Props.invoke_object_argument_forwarded", "Tetl.C15.Props.invoke_extracted_eq_spec"],
 }
 
 # ------------------------------------------------------------------ the class zoo (names of harness/c15.cpp)
@@ -205,6 +258,17 @@ RELATION_TYPES = ["int", "double", "bool", "P<void>", "P<int>", "P<C1<int>>", "L
                   "ExplicitConv", "FromCls", "Callable", "CallableRef", "Assignable", "L<Assignable>", "ES", "EU",
                   "A<int,3>", "F0000<int>", "P<F1000<int>>", "P<F1001<int>>", "M<int>", "M<F1000<int>>", "void", "nullptr_t",
                   "MoveOnly", "L<MoveOnly>", "Abstract", "L<Abstract>", "Swappable", "L<Swappable>", "long", "uchar"]
+# the INVOKE zoo (names of `namespace inv` in harness/c15.cpp = keys of Inv.callableOf / Inv.abaseOf in Tetl/C15/Invoke.lean)
+INV_PMF = ["pm_f0", "pm_fl", "pm_fr", "pm_fc", "pm_fcl", "pm_fcr", "pm_fn", "pm_fcn", "pm_fa", "pm_fv", "pm_fvl", "pm_frn"]
+INV_PMD = ["pd_x", "pd_cx"]
+INV_FOBJ = ["FoP", "FoC", "FoL", "FoR", "FoCL", "FoCR", "FoOv", "FoOv2", "FoN", "FoV", "FoCVL"]
+INV_FN = ["fn_t", "fn_p", "fn_r", "fn_pn"]
+INV_NC = ["nc_int", "nc_U"]
+INV_ARGS = ["S", "D", "rwS", "rwCS", "rwD", "pS", "pCS", "pD", "smC", "smK", "smN", "smL", "smR", "U", "int"]
+INV_ARG_CPP = {"S": "inv::S", "D": "inv::D", "U": "inv::U", "int": "int", "pS": "inv::S*", "pCS": "inv::S const*", "pD": "inv::D*",
+               "rwS": "%s::reference_wrapper<inv::S>", "rwCS": "%s::reference_wrapper<inv::S const>",
+               "rwD": "%s::reference_wrapper<inv::D>", "smC": "inv::smC", "smK": "inv::smK", "smN": "inv::smN", "smL": "inv::smL",
+               "smR": "inv::smR"}
 SAME_TYPES = ["bint;", "K1bint;", "K2bint;", "K3bint;", "buint;", "blong;", "bllong;", "bchar;", "bschar;", "Pbint;", "K1Pbint;",
               "PK1bint;", "Lbint;", "Rbint;", "LK1bint;", "A3;bint;", "A1;bint;", "Ubint;", "A3;K1bint;", "F0000bint;",
               "F0001bint;", "F0100bint;", "F0010bint;", "F1000bint;", "PF0000bint;", "PF0001bint;", "Mbint;", "MF0000bint;",
@@ -295,6 +359,30 @@ def generate(tier, seed):
     for a in rel:
         for b in rel:
             add("db a=%s b=%s" % (a, b), "db")
+    # INVOKE ([func.require]): every pointer to member x every first argument x its six cv/ref forms (the member pointer
+    # itself in the form `F`; a seeded third also as `F&`, `F const&`, ...), wrong arities, no object argument; every
+    # function object / function x its six forms x 0, 1, 2 int arguments; function objects with an object argument
+    rnd_main, rnd = rnd, random.Random(seed * 7919 + 15)          # own stream: the later parts keep theirs
+    def inv(f, fq, a, aq, n, tag):
+        add("inv f=%s fq=%d a=%s aq=%d n=%d" % (f, fq, a, aq, n), tag)
+    for f in INV_PMF + INV_PMD:
+        arity = 1 if f == "pm_fa" else 0
+        for a in INV_ARGS:
+            for aq in range(6):
+                inv(f, 0, a, aq, arity, "inv/member")
+                if thorough or rnd.random() < 0.2:
+                    inv(f, rnd.randrange(1, 6), a, aq, arity, "inv/member-fq")
+                if thorough or rnd.random() < 0.1:
+                    inv(f, 0, a, aq, 1 - arity, "inv/member-arity")
+        for fq in range(6):
+            inv(f, fq, "none", 0, 0, "inv/member-noobj")
+    for f in INV_FOBJ + INV_FN + INV_NC:
+        for fq in range(6):
+            for n in (0, 1, 2):
+                inv(f, fq, "none", 0, n, "inv/call")
+            for a in (INV_ARGS if thorough else rnd.sample(INV_ARGS, 2)):
+                inv(f, fq, a, rnd.randrange(6), rnd.randrange(2), "inv/call-obj")
+    rnd = rnd_main
     # (b) numeric_limits
     for t in ARITH:
         for q in range(4):
@@ -395,6 +483,8 @@ def nontrivial(case, rows=None):
         return kv["a"] != kv["b"]
     if op == "lim":
         return True
+    if op == "inv":
+        return kv["f"].startswith("p") or kv["fq"] != "0"
     if op == "rn":
         n, d = int(kv["n"]), int(kv["d"])
         import math
@@ -589,6 +679,16 @@ def make_items(ctx, cases):
             else:
                 mo, so = ops_mask(parse_items(it.model)), ops_mask(parse_items(it.spec))
                 it.call = "rarow<%sL, %sL, %sL, %sL, %d, %d>(%d);" % (kv["n1"], kv["d1"], kv["n2"], kv["d2"], mo, so, idx)
+        elif op == "inv":
+            args_e, args_s = [], []
+            if kv["a"] != "none":
+                cpp = INV_ARG_CPP[kv["a"]]
+                for ns, lst in (("etl", args_e), ("std", args_s)):
+                    lst.append("inv::Q%s<%s>" % (kv["aq"], cpp % ns if "%s" in cpp else cpp))
+            for lst in (args_e, args_s):
+                lst.extend(["int"] * int(kv["n"]))
+            it.call = "irow<inv::Q%s<inv::%s>, inv::TL<%s>, inv::TL<%s>>(%d);" % (kv["fq"], kv["f"], ", ".join(args_e),
+                                                                                   ", ".join(args_s), idx)
         elif op == "misc":
             it.call = "mrow<0>(%d);" % idx
         else:
@@ -740,6 +840,8 @@ def run(ctx, replay=None):
         gen_info = c15_defs.generate(repo, os.path.join(lib.LEAN, "Tetl", "C15", "GenBuiltins.lean"), cxx=lib.CXX)
         gen_info["opaque"] = len(gen_info["opaque"])
         gen_info["limits"] = regenerate_limits(repo)
+        import c15_invoke
+        gen_info["invoke"] = c15_invoke.generate(repo, os.path.join(lib.LEAN, "Tetl", "C15", "GenInvoke.lean"), cxx=lib.CXX)
     except Exception as e:      # noqa: BLE001
         log("MACHINERY-ERROR extraction of the trait definitions failed: %s" % str(e)[:400])
         return 2
@@ -808,7 +910,7 @@ def run(ctx, replay=None):
     clang_info = {"compiler": clang, "rows": 0}
     if clang:
         pool = [i for i in live if i not in {b[0] for b in broken_rows}
-                and items[i].case.lines[0].split(" ")[0] in ("ut", "bt", "d", "db", "lim", "misc")]
+                and items[i].case.lines[0].split(" ")[0] in ("ut", "bt", "d", "db", "lim", "misc", "inv")]
         pick_c = pool if replay else random.Random(ctx.seed + 7).sample(pool, min(len(pool), 240 if ctx.tier == "quick" else 1200))
         try:
             n_c = max(1, min(lib.NPROC, len(pick_c) // 60 + 1))
